@@ -21,3 +21,18 @@ package zkaffp
 //@   nopanic[C05]
 //@   inline
 //@   requires hash != nil && hash.h != nil && group != nil && public.Kv != nil && public.Dv != nil && public.Fp != nil && public.Xp != nil && pkok(public.Prover) && pkvals(public.Prover) && pkbig(public.Prover) && pkok(public.Verifier) && pkvals(public.Verifier) && pkbig(public.Verifier) && pedok(public.Aux) && commitment != nil
+//@   use absorb
+//@   ensures[C10] result1 == nil ==> absorbed(hstate(hash), habs(iface(public.Kv)))
+//@   ensures[C10] result1 == nil ==> absorbed(hstate(hash), habs(iface(public.Dv)))
+//@   ensures[C10] result1 == nil ==> absorbed(hstate(hash), habs(iface(public.Fp)))
+//@   ensures[C10] result1 == nil ==> absorbed(hstate(hash), habs(iface(public.Xp)))
+//@   ensures[C10] result1 == nil ==> absorbed(hstate(hash), habs(iface(public.Prover)))
+//@   ensures[C10] result1 == nil ==> absorbed(hstate(hash), habs(iface(public.Verifier)))
+//@   ensures[C10] result1 == nil ==> absorbed(hstate(hash), habs(iface(public.Aux)))
+//@   ensures[C10] result1 == nil ==> absorbed(hstate(hash), habs(iface(commitment.A)))
+//@   ensures[C10] result1 == nil ==> absorbed(hstate(hash), habs(iface(commitment.Bx)))
+//@   ensures[C10] result1 == nil ==> absorbed(hstate(hash), habs(iface(commitment.By)))
+//@   ensures[C10] result1 == nil ==> absorbed(hstate(hash), habs(iface(commitment.E)))
+//@   ensures[C10] result1 == nil ==> absorbed(hstate(hash), habs(iface(commitment.S)))
+//@   ensures[C10] result1 == nil ==> absorbed(hstate(hash), habs(iface(commitment.F)))
+//@   ensures[C10] result1 == nil ==> absorbed(hstate(hash), habs(iface(commitment.T)))
